@@ -140,6 +140,21 @@ func generate(prop string, seed uint64, run int, tier string) *Scenario {
 		sc.BE.Cfg.LogMask = mask
 	}
 
+	// what failing builders' errors wrap (same separate generator)
+	if sc.FO != nil {
+		if prop != "C03" { // a dimension of C03's table
+			sc.FO.WrapBackendErrs = !sc.FO.DefaultBackend && chance(lr, 0.2)
+		}
+
+		for c := range sc.FO.Clients {
+			for i := range sc.FO.Clients[c] {
+				if op := &sc.FO.Clients[c][i]; op.BuildFail && chance(lr, 0.3) {
+					op.BuildErrKind = pick(lr, "canceled", "deadline", "notfound", "expired")
+				}
+			}
+		}
+	}
+
 	return sc
 }
 
